@@ -35,3 +35,22 @@ Lemma rotation_roundtrip n M v : orthogonal n M -> length v = n ->
 Proof.
   intros H Hv. split; [apply (rotate_inverse_direct n)|apply (rotate_direct_inverse n)]; try assumption; apply rot_of_matrix_ok; exact H.
 Qed.
+
+(* ---- angles recovered from a 3-D matrix (GH::rotationGetAnglesInPlace): a0 = atan2(M10, M00), a1 = atan2(-M20, sqrt(M21^2+M22^2)),
+   a2 = atan2(M21, M22).  For M = rot3d (c0,s0) (c1,s1) (c2,s2) the pairs given to atan2 are (c1 s0, c1 c0), (s1, sqrt(c1^2)), (c1 s2, c1 c2):
+   proportional to the original (sin, cos) pairs by the factor c1.  When c1 < 0 the recovered triple is the other representation
+   of the same rotation: (-c0,-s0), (-c1, s1), (-c2,-s2) — it generates the same matrix. *)
+Lemma rot3d_atan2_args c0 s0 c1 s1 c2 s2 : c1 * c1 + s1 * s1 == 1 -> c2 * c2 + s2 * s2 == 1 ->
+  let M := rot3d c0 s0 c1 s1 c2 s2 in
+  mget M 1 0 == c1 * s0 /\ mget M 0 0 == c1 * c0 /\ - mget M 2 0 == s1 /\
+  mget M 2 1 * mget M 2 1 + mget M 2 2 * mget M 2 2 == c1 * c1 /\
+  mget M 2 1 == c1 * s2 /\ mget M 2 2 == c1 * c2.
+Proof.
+  intros H1 H2. cbv zeta. unfold mget. cbn [rot3d List.nth]. repeat split; try ring. nsatz.
+Qed.
+Lemma rot3d_other_triple c0 s0 c1 s1 c2 s2 :
+  Forall2 (Forall2 Qeq) (rot3d (- c0) (- s0) (- c1) s1 (- c2) (- s2)) (rot3d c0 s0 c1 s1 c2 s2).
+Proof. unfold rot3d. repeat constructor; ring. Qed.
+(* 2-D: a0 = atan2(M10, M00) = atan2(s, c) *)
+Lemma rot2d_atan2_args c s : mget (rot2d c s) 1 0 = s /\ mget (rot2d c s) 0 0 = c.
+Proof. split; reflexivity. Qed.
